@@ -102,6 +102,7 @@ def _worker(args):
             signal.setitimer(signal.ITIMER_REAL, run_timeout)
             case = mod.make_case(i, rng, tier)
             if case is None:
+                signal.setitimer(signal.ITIMER_REAL, 0)
                 i += stride
                 continue
             case["_run"] = {"index": i, "seed": seed, "start": start, "stride": stride, "tier": tier, "base": base}
@@ -132,6 +133,8 @@ def _worker(args):
         if len(samples) < 2 and (start < 4):
             samples.append(_strip(case))
         i += stride
+    signal.setitimer(signal.ITIMER_REAL, 0)
+    signal.signal(signal.SIGALRM, signal.SIG_IGN)
     return {"done": done, "stats": stats, "keys": keys, "scheds": scheds, "ctxs": ctxs, "viols": viols,
             "harness": harness[:5], "n_harness": len(harness), "samples": samples}
 
